@@ -273,9 +273,12 @@ def run_C14(tier, seed, replay=None, procs=16):
             q, maps = VR.permute(base, order)
             for scheme in (list(VR.SCHEMES) if oi <= 1 else ["plain"]) if full else (list(VR.SCHEMES) if oi == 0 else ["prefixes"]):
                 r = VR.rename(q, scheme)
-                for hist in ((0, 2) if oi <= 1 else (1,)):
+                for hist in ((0, 2, 3) if oi == 0 and scheme == "plain" else (0, 2) if oi <= 1 else (1,)):
                     t = copy.deepcopy(r)
                     t["tag"] = f"{base['tag']}/order{oi}/{scheme}/history{hist}"
+                    tiny = hist == 3
+                    if tiny:
+                        hist = 1
                     if hist:
                         # earlier, unrelated problems that reuse the very same element names
                         others = []
@@ -286,6 +289,10 @@ def run_C14(tier, seed, replay=None, procs=16):
                                 len(bases[(bi + 1 + k) % len(bases)]["cons"]), len(bases[(bi + 1 + k) % len(bases)]["inds"]))])[0], scheme)
                             others.append(ob)
                         t["_opts"] = {"history": others}
+                        if tiny:
+                            # the earlier problem was solved under a 1 ms time limit; this one asks for random initial
+                            # values: every solver sets the (process-wide) z3 options it needs, whatever ran before
+                            t["_opts"].update(history_solver_kw={"max_time": 0.001}, solver_kw={"random_values": True})
                     twins.append(t)
                     meta.append({"base": bi, "maps": maps, "order": order, "scheme": scheme, "history": hist})
     twins = FT.number(twins)
